@@ -18,7 +18,7 @@ EXPLANATION = (
     "projection by exact names only — a test on the *shape* of a column name (endswith / startswith / substring / "
     "regular expression over a column-name variable) takes user columns that merely look like internal ones. "
     "S3 internal names of one step are pairwise distinct (two temporaries may not share a name). "
-    "Not decided: invariance of the data under renaming (run-time), names reserved by the engines themselves."
+    "Not decided: invariance of the data under renaming (run-time), names reserved by the engines themselves. S4 the automatic table keys of the data spaces (da_temp_<n>) are tested, after their last assignment and on every path, for absence from the namespace the store writes into: the space's own binding for a store, the database's tables (table_exists) for a table write."
 )
 
 STEP_MODULES = ("pandas_base", "pandas_model", "polars_model", "cdata")
@@ -322,3 +322,16 @@ def run(program, res, tier):
     _s1(program, res)
     _s2(program, res)
     _s3(program, res)
+    # automatic table names of the data spaces live in the namespace of the user's tables (the database for DBSpace):
+    # they must be made fresh against it (the C20-S2 rule, decided per namespace the effect writes into)
+    res.rule("C15-S4", "automatically generated table keys are fresh in the namespace they are written into (binding / database tables)")
+    from ..report import Only
+    from . import c20
+    for (mod, cname, binding) in c20.SPACES:
+        cls = program.cls(mod, cname)
+        for mname in ("insert", "execute"):
+            m = cls.methods.get(mname)
+            if m is None:
+                raise AnalysisError(f"anchor vanished: {cname}.{mname}")
+            res.analysed(m)
+            c20._check_writer(Only(res, {"C20-S2": "C15-S4"}), cname, m, binding, cls)
